@@ -64,8 +64,8 @@ CHECKS["C16"] = dict(
     design="6/C16", technique="Coq proof (log-shape theorem over all input sequences) + callback-log correspondence in virtual time")
 
 CHECKS["C06"] = dict(
-    text="filterSubscription.run as a step function (FilterSub.v) over the cache model. Proved: its state invariant under every input sequence (cache actor's filter = most recently set filter, cache empty until readiness); filter_update_commutes (a child in step with its parent stays in step under every well-formed parent event); sync_establishes_in_step (every sync from the parent's current content re-establishes it, from any cache not newer than the parent); nested_conjunction (filters nested through clones compose as conjunction); its own events are a well-formed delta (C02). Correspondence: random trees of all six subscribe/clone forms to depth 3 with Refilter racing with readiness and in-flight events under perturbed schedules; at barriers every ready node's cache vs its filter chain applied to the server content and vs the extracted nested_view, event mirrors between barriers.",
-    note="PARTIAL: the convergence theorem for the racing case (stale events replayed after a list that is ahead of them) is designed (DESIGN.md 6/C06) but not mechanised; that case is covered by the harness only.",
+    text="filterSubscription.run as a step function (FilterSub.v) over the cache model. Proved: its state invariant under every input sequence (cache actor's filter = most recently set filter, cache empty until readiness); filter_update_commutes (a child in step with its parent stays in step under every well-formed parent event); sync_establishes_in_step (every sync from the parent's current content re-establishes it, from any cache not newer than the parent); nested_conjunction; its own events are a well-formed delta (C02); and the RACING CASE fsub_converges: for every interleaving of consuming parent events with listings of the parent that are any number of events ahead, under any new filter, once the stale events have drained the cache is the most recently set filter applied to the parent's cache (to the parent's final cache when everything is consumed). Correspondence: random trees of all six subscribe/clone forms to depth 3 with Refilter racing with readiness and in-flight events under perturbed schedules; at barriers every ready node's cache vs its filter chain applied to the server content and vs the extracted nested_view, event mirrors between barriers.",
+    note="The racing case is proved per key (FilterRaceProps.fsub_converges) under hist_ok: parent events are well-formed deltas whose entries never get older.",
     design="6/C06", technique="Coq proof (step-function invariant, commutation and nesting theorems) + barrier correspondence under racing Refilter in virtual time")
 CHECKS["C07"] = dict(
     text="refilter_exact (from the f1-view, Refilter(f2) leaves exactly the f2-view), refilter_events_exact / refilter_no_change_no_event (the events are an exact, minimal, well-formed delta), refilter_equal_noop (an equal filter changes and emits nothing) justified by refilter_equal_same_view via C17's soundness, refilter_roundtrip. Correspondence: exhaustive ordered pairs of a 7-member filter family (each rebuilt) + third and repeated Refilters x all parent contents over a small universe, through the public FilterSubscription / FilterController API with barriers; per Refilter the delivered events (multiset) and cache vs the extracted fs_step.",
@@ -97,7 +97,7 @@ CHECKS["C20"] = dict(
 
 CHECKS["C09"] = dict(
     text="Join = source monitor + for-filter clone of the destination + selection filter. Proved: join_update_in_step (after the callback following the last source change the join's cache is the selection filter applied to the destination's cache, both when the Refilter finds the filter changed and when it finds it equal: C17), composed with C19's specifications into workload/service_pods_join_exact (exactly the destination objects owned by a current source object), double_join_exact, join_ready_after_both (C08), events well-formed (C02), close stops its own subtree only (C11). Correspondence: all eight generated joins and IngressPods over two/three fake API servers in virtual time, racing source/destination histories, three create/use/close cycles over long-lived bases: join cache vs the ownership predicate and vs the extracted join_view, readiness with a slow source, goroutine inventory per cycle, bases still current.",
-    note="Known finding D5 (RCPods has no namespace scoping) is listed. The racing case inherits C06's partial label.",
+    note="Known finding D5 (RCPods has no namespace scoping) is listed.",
     design="6/C09", technique="Coq proof (composition of the C06/C08/C17/C19 theorems) + join scenarios over several fake servers in virtual time")
 
 PENDING = {}
